@@ -446,6 +446,7 @@ class TabPolicy(AbstractActorCriticPolicy):
     V: Array  # [NO,NH]
     LP: Array  # [NO,NA]
     MU: Array  # [NO]
+    ENT: Array  # [NO] entropy reported by evaluate_action
     box: bool = eqx.field(static=True)
     NH: int = eqx.field(static=True)
     NHR: int = eqx.field(static=True)
@@ -459,6 +460,7 @@ class TabPolicy(AbstractActorCriticPolicy):
         self.V = jnp.asarray(pspec["V"], dtype=float)
         self.LP = jnp.asarray(pspec["LP"], dtype=float)
         self.MU = jnp.asarray(pspec["MU"], dtype=float)
+        self.ENT = jnp.asarray(pspec.get("ENT", [0.0] * len(pspec["MU"])), dtype=float)
         self.action_space = action_space
         self.observation_space = observation_space
 
@@ -501,7 +503,7 @@ class TabPolicy(AbstractActorCriticPolicy):
 
     def evaluate_action(self, state, observation, action, *, action_mask=None):
         oi = self._oi(observation)
-        return state, self.V[oi, state.h], self._logp(oi, action), jnp.asarray(0.0)
+        return state, self.V[oi, state.h], self._logp(oi, action), self.ENT[oi]
 
 
 def random_ptab(rng, spec, asp, nobs, det=False):
